@@ -220,6 +220,39 @@ def check(prog, rep, tier):
         else:
             rep.undecided('R08.a', key, file=f.file, line=f.node.lineno, found='no returning path')
     rep.floor('R08.a', 'message-level constructors', nmsg, 5)
+    # OPEN: the Opt Parm Len octet equals the size of the optional parameters that follow, on every path
+    qo = 'yabgp.message.open.Open.construct'
+    if qo in results:
+        fo, outs_o = results[qo]
+        probs = []
+        npo = 0
+        for k, v, st in outs_o:
+            if k != 'val' or not isinstance(v, BytesV):
+                continue
+            items = BL.fields(BL.flatten(v))
+            fl_idx = [i for i, p_ in enumerate(items) if p_[0] == 'field']
+            if len(fl_idx) < 7:
+                continue
+            npo += 1
+            oi = fl_idx[6]                      # H len, B type | B ver, H as, H hold, I id, B optlen
+            if items[oi][1] != 'B':
+                probs.append('the 7th field of the OPEN is %s, expected the 1-octet Opt Parm Len' % items[oi][1])
+                break
+            rest = BL.lf(0)
+            for p_ in items[oi + 1:]:
+                rest = BL.lf_add(rest, BL.item_len(p_, st))
+            want = BL.lin(items[oi][2], st)
+            if want is None or rest is None or not BL.lf_eq_ip(want, rest):
+                probs.append('Opt Parm Len is %s while %s octets of optional parameters follow' % (
+                    items[oi][2].desc()[:60], BL.lf_str(rest) if rest is not None else '?'))
+                break
+        if probs:
+            rep.bad('R08.c', 'open-optlen', file=fo.file, line=fo.node.lineno, func=qo, found=probs[0],
+                    expected='Opt Parm Len = size of the optional parameters built by this call', key='open-optlen')
+        elif npo:
+            rep.ok('R08.c', 'open-optlen', file=fo.file, line=fo.node.lineno, found='%d path(s)' % npo)
+        else:
+            rep.undecided('R08.c', 'open-optlen', file=fo.file, line=fo.node.lineno, found='no symbolic path')
     # route refresh call sites pass 5 / 128
     rr = prog.func('yabgp.message.route_refresh.RouteRefresh.construct_header')
     bgp = prog.func('yabgp.core.protocol.BGP.send_route_refresh')
